@@ -163,6 +163,16 @@ func (g *vGateWorld) applyGateCred(q *vReq, cred map[string]interface{}) {
 		default:
 			q.Basic = []string{user, "nope"}
 		}
+	case "ipcert", "kmcert":
+		if base := strings.TrimSuffix(variant, "_othercookie"); base != variant {
+			w.applyCred(q, map[string]interface{}{"kind": kind, "var": base, "user": user, "fs": cred["fs"]})
+			if q.Cookies == nil {
+				q.Cookies = map[string]string{}
+			}
+			q.Cookies[authCookieName] = w.mintCookie("bob", AuthTypePassword, 0)
+			return
+		}
+		w.applyCred(q, cred)
 	default:
 		w.applyCred(q, cred)
 	}
